@@ -45,6 +45,7 @@ from explorerscript.ssb_converting.ssb_data_types import (
     SsbOpParamPositionMarker,
     SsbOpParamFixedPoint,
 )
+from explorerscript.ssb_converting.ssb_special_ops import OPS_WITH_JUMP_TO_MEM_OFFSET
 from explorerscript.util import open_utf8
 
 
@@ -65,12 +66,28 @@ class RoutineDict(TypedDict):
     ops: list[OpDict]
 
 
-def build_ops(ops: list[SsbOperation]) -> list[OpDict]:
+def build_op_positions(routine_ops: list[list[SsbOperation]]) -> dict[int, int]:
+    """Maps the offsets of the compiled operations to their (1-based) index in the list of all operations."""
+    positions: dict[int, int] = {}
+    for ops in routine_ops:
+        for op in ops:
+            positions[op.offset] = len(positions) + 1
+    return positions
+
+
+def build_ops(ops: list[SsbOperation], positions: dict[int, int] | None = None) -> list[OpDict]:
+    """
+    Builds the JSON for the operations. If positions is given (see build_op_positions),
+    jump targets are written as the index of the operation they jump to.
+    """
     out_ops: list[OpDict] = []
     for op in ops:
         out_op: OpDict = {"opcode": op.op_code.name, "params": []}
-        for param in op.params:
+        for i, param in enumerate(op.params):
             if isinstance(param, int):
+                if positions is not None and i == len(op.params) - 1 and op.op_code.name in OPS_WITH_JUMP_TO_MEM_OFFSET:
+                    # The compiler appends the jump target (an opcode offset) as last parameter.
+                    param = positions[param]
                 out_op["params"].append(param)
             elif isinstance(param, SsbOpParamFixedPoint):
                 out_op["params"].append({"type": "FIXED_POINT", "value": param.value})
@@ -94,29 +111,30 @@ def build_routines_json(
     routine_infos: list[SsbRoutineInfo], named_coroutines: list[str], routine_ops: list[list[SsbOperation]]
 ) -> list[RoutineDict]:
     routines: list[RoutineDict] = []
+    positions = build_op_positions(routine_ops)
     for info, name, ops in zip(routine_infos, named_coroutines, routine_ops):
         routine: RoutineDict
         if info.type == SsbRoutineType.COROUTINE:
-            routine = {"type": "COROUTINE", "name": name, "ops": build_ops(ops)}
+            routine = {"type": "COROUTINE", "name": name, "ops": build_ops(ops, positions)}
         elif info.type == SsbRoutineType.GENERIC:
-            routine = {"type": "GENERIC", "ops": build_ops(ops)}
+            routine = {"type": "GENERIC", "ops": build_ops(ops, positions)}
         elif info.type == SsbRoutineType.ACTOR:
             routine = {
                 "type": "ACTOR",
                 "target_id": info.linked_to if info.linked_to is not -1 else info.linked_to_name,
-                "ops": build_ops(ops),
+                "ops": build_ops(ops, positions),
             }
         elif info.type == SsbRoutineType.OBJECT:
             routine = {
                 "type": "OBJECT",
                 "target_id": info.linked_to if info.linked_to is not -1 else info.linked_to_name,
-                "ops": build_ops(ops),
+                "ops": build_ops(ops, positions),
             }
         elif info.type == SsbRoutineType.PERFORMER:
             routine = {
                 "type": "PERFORMER",
                 "target_id": info.linked_to if info.linked_to is not -1 else info.linked_to_name,
-                "ops": build_ops(ops),
+                "ops": build_ops(ops, positions),
             }
         else:
             raise ValueError(f"invalid routine type {info.type}")
@@ -183,6 +201,8 @@ if __name__ == "__main__":
     }
 
     if args.source_map is not None:
+        # The source map has to use the same offsets as the JSON.
+        compiler.source_map.rewrite_offsets(build_op_positions(compiler.routine_ops))
         with open_utf8(args.source_map, "w") as f:
             f.write(compiler.source_map.serialize())
 
